@@ -33,11 +33,18 @@ class A(Adapter):
     def configs(self):
         base = [cfg("r10c10", True, gen="random", r=10, c=10, tl=None), cfg("r5c9", True, gen="random", r=5, c=9, tl=None),
                 cfg("toy", c02=True, gen="toy", r=5, c=5, tl=None), cfg("r9c5", gen="random", r=9, c=5, tl=None), cfg("r3c3", gen="random", r=3, c=3, tl=None)]
-        return cross_tl(base, [None, 1, 2, 3, 7])
+        out = cross_tl(base, [None, 1, 2, 3, 7])
+        # a user-written level in which the agent is walled in (no action available): only the properties that do not depend
+        # on the documented list of episode endings look at it (the env ends such an episode, its docstring does not say so)
+        out.append(cfg("boxed", True, gen="boxed", r=3, c=4, tl=None, props=["C01", "C02", "C03", "C13", "C14"]))
+        return out
 
     def build(self, c):
         from jumanji.environments import Maze
         from jumanji.environments.routing.maze import generator as G
+        if c["gen"] == "boxed":
+            from jsim import fakes
+            return Maze(generator=fakes.maze_boxed_in_generator(), time_limit=c.get("tl"))
         g = G.ToyGenerator() if c["gen"] == "toy" else G.RandomGenerator(num_rows=c["r"], num_cols=c["c"])
         return Maze(generator=g, time_limit=c.get("tl"))
 
